@@ -179,7 +179,7 @@ class Reject(Exception):
 
 _REF_WS = re.compile(r'\s*')
 _REF_OP = re.compile(r'\*\*|<=|>=|==|!=|&&|\|\||[-+*/%<>]')
-_REF_CALL = re.compile(r'([A-Za-z_]\w+)\s*\(')
+_REF_CALL = re.compile(r'([A-Za-z_]\w*)\s*\(')
 _REF_NUM = re.compile(r'\+?\d+(?:\.\d*)?(?:e[+-]\d+)?')
 _REF_SQ = re.compile(r"'((?:\\\\|\\'|[^'])*)'")
 _REF_DQ = re.compile(r'"((?:\\\\|\\"|[^"])*)"')
